@@ -28,7 +28,7 @@ def grid(rnd, quick):
                         continue
                     for buf in ((rnd.choice([0, 1, 10]),) if quick else (0, 1, 10)):
                         out.append(dict(id="lc-%d" % k, role=role, cause=cause, phase=phase, inIn=inin, inOut=inout, buf=buf,
-                                        slowCb=slow, partial=partial, cause2="", gapMs=0))
+                                        slowCb=slow, partial=partial, cause2="", gapMs=0, errDelayMs=0))
                         k += 1
     # two overlapping causes: a local stop / close and the peer going away shortly before or after (accepting side)
     for c1, c2 in (("handler_stop", "peer_close"), ("handler_stop", "peer_reset"), ("peer_close", "handler_stop"), ("local_close", "peer_close"),
@@ -40,8 +40,13 @@ def grid(rnd, quick):
                     if phase != "logged":
                         continue
                 out.append(dict(id="lc-%d" % k, role="acceptor", cause=c1, phase=phase, inIn=rnd.choice([0, 2]), inOut=rnd.choice([0, 1]),
-                                buf=rnd.choice([0, 1, 10]), slowCb=rnd.random() < 0.5, partial=False, cause2=c2, gapMs=gap))
+                                buf=rnd.choice([0, 1, 10]), slowCb=rnd.random() < 0.5, partial=False, cause2=c2, gapMs=gap, errDelayMs=0))
                 k += 1
+                if c1 in ("peer_close", "peer_reset"):
+                    # the peer went away, but the failing Read surfaces only after the local side has stopped / closed
+                    out.append(dict(id="lc-%d" % k, role="acceptor", cause=c1, phase=phase, inIn=0, inOut=rnd.choice([0, 1]),
+                                    buf=rnd.choice([0, 1, 10]), slowCb=False, partial=False, cause2=c2, gapMs=5, errDelayMs=rnd.choice([30, 60])))
+                    k += 1
     return out
 
 
